@@ -1,6 +1,7 @@
 import XModel.TableSel
 import XModel.TableSpan
 import XModel.TableTuple
+import XModel.TableFast
 /-!
 # C08 — row selection follows the documented selector semantics, in table order
 Model: `XModel/Table.lean` (`getRowIndices`, `getRegexpIndices`, `indicesOf`, `maskOf`, `rowsOf`).
@@ -10,6 +11,12 @@ and the correspondence run is repeated under several `PYTHONHASHSEED`s.
 **Which tree.**  The model transcribes `/repo` as it stands now: the pinned commit plus the `fix:` commits recorded in
 `/verif/KNOWN_FINDINGS.json` (status `fixed`).  Where a theorem below rests on repaired code — the sorted regexp-count loop, `count_dict.get` — it is false of
 the tree as first pinned; the witnesses are kept (defects D10–D12).
+**What has no formal content here.**  `Match := String → Bool` is an oracle for `re.fullmatch(name, IGNORECASE)`: "case-insensitive
+full-match regular expression" is the harness's job (it computes the match table with Python's `re` and hands it to the
+model on every line).  Value ranges are proved for integer columns only (`C08_value_range` carries `hint`; a slice on a
+float column is a `TypeError` in the model and oracle-only in the check).  `C08_count_selector*` take the parse of the selector
+as a hypothesis (`hsplit`); the parse itself is characterised in C07 (`split_label`).  Known finding D24 (exact-label fast path
+of count selectors) is characterised exactly by `C08_count_selector_documented_iff`.
 -/
 namespace Properties.C08
 open TableM Cache
@@ -218,7 +225,7 @@ theorem C08_name_span_rows (t : Tbl) (h : Coherent t) (hr : Rect t) (m : String 
 /-! ### wrappers of the model-level results (statements as printed by `#check`) -/
 section wrapped
 
-/-- **rows[s1, s2] = rows[s1].rows[s2]** on the API level (`rowsOf` with a `.tuple` selector vs `rowsOf` applied twice): the same table — every field — including which error wins; for coherent tables whose data entries are at least as long as the table (`DataCovers`, needed in the model: `junkExample`) -/
+/-- rows[s1, s2] = rows[s1].rows[s2] as equality of EVERY field, including unlisted data entries — which needs `DataCovers` (every data entry at least as long as the table), a hypothesis no theorem establishes and that a wrong-length column assignment breaks (`junkExample`, an artefact of the model's `selectRows` subscripting unlisted entries); the form to use is `C08_compose_selectors_rect` below -/
 theorem C08_compose_selectors :
     ∀ (t : TableM.Tbl),
       TableM.Coherent t →
@@ -292,6 +299,97 @@ theorem C08_views_fail_together :
                   (TableM.maskOf t m s).snd = Except.error TableM.TErr.indexError ∧
                     (TableM.rowsOf t m s).snd = Except.error TableM.TErr.indexError :=
   @TableM.views_fail_together
+
+/-- **rows[s1, …, sn] = rows[s1].rows[…].rows[sn] for every coherent RECTANGULAR table** — both hypotheses have establishment and preservation theorems (C07 / C14), unlike `DataCovers` below: the tuple form fails exactly when the chain fails, with the same error, and otherwise gives the same index column, the same column names, the same number of rows and the same cells in every listed column -/
+theorem C08_compose_selectors_rect :
+    ∀ (t : TableM.Tbl),
+      TableM.Coherent t →
+        TableM.Rect t →
+          ∀ (m : String → TableM.Match) (sels : List TableM.Sel),
+            (∀ (x : TableM.Sel), x ∈ sels → TableM.isTuple x = false) →
+              (∀ (e : TableM.TErr),
+                  (TableM.rowsOf t m (TableM.Sel.tuple sels)).snd = Except.error e ↔
+                    TableM.rowsChain m t sels = Except.error e) ∧
+                ∀ (r1 : TableM.Tbl),
+                  (TableM.rowsOf t m (TableM.Sel.tuple sels)).snd = Except.ok r1 →
+                    ∃ r2,
+                      TableM.rowsChain m t sels = Except.ok r2 ∧
+                        r1.index = r2.index ∧
+                          r1.colNames = r2.colNames ∧
+                            TableM.Tbl.indexCol r1 = TableM.Tbl.indexCol r2 ∧
+                              TableM.Tbl.nrows r1 = TableM.Tbl.nrows r2 ∧
+                                ∀ (c : String), c ∈ t.colNames → TableM.Tbl.col r1 c = TableM.Tbl.col r2 c :=
+  @TableM.rowsOf_tuple_chain_rect
+
+/-- **a `name::count` selector returns the documented list OUTSIDE the signature of known finding D24** — whether the exact-label fast path hits or misses: if it is not the case that (the literal name part is a row name and the regexp also matches a different row name) nor that (the literal name part is a row name the regexp does not match itself — a row name containing regexp metacharacters), the result is `docCount`: the count-th occurrence of every matching name, ascending, shifted by the offset -/
+theorem C08_count_selector_outside_known_finding :
+    ∀ (t : TableM.Tbl),
+      TableM.Coherent t →
+        ∀ (m : TableM.Match) (sel name : String) (c offset : Int),
+          TableM.splitNameCountOffset t sel = Except.ok (name, some c, offset) →
+            ¬TableM.D24Sig (TableM.Tbl.indexCol t) m name →
+              ¬TableM.SelfMiss (TableM.Tbl.indexCol t) m name →
+                ∃ l,
+                  (TableM.getRegexpIndices t m sel).snd = Except.ok l ∧
+                    l = TableM.docCount (TableM.Tbl.indexCol t) m c offset ∧
+                      List.Pairwise (fun x1 x2 => x1 ≤ x2) l ∧
+                        ∀ (j : Int),
+                          j ∈ l ↔
+                            ∃ nn i,
+                              nn ∈ TableM.Tbl.indexCol t ∧
+                                m nn = true ∧ TableM.scanLookup (TableM.Tbl.indexCol t) nn c 0 = some i ∧ j = i + offset :=
+  @TableM.count_selector_outside_D24
+
+/-- exactly when the fast path deviates: the result is the documented list iff NOT (the fast path hits and either the regexp does not match the literal name itself or some other matching row name has a count-th occurrence) -/
+theorem C08_count_selector_documented_iff :
+    ∀ (t : TableM.Tbl),
+      TableM.Coherent t →
+        ∀ (m : TableM.Match) (sel name : String) (c offset : Int),
+          TableM.splitNameCountOffset t sel = Except.ok (name, some c, offset) →
+            ((TableM.getRegexpIndices t m sel).snd = Except.ok (TableM.docCount (TableM.Tbl.indexCol t) m c offset) ↔
+              ¬TableM.Deviates (TableM.Tbl.indexCol t) m name c offset) :=
+  @TableM.count_selector_documented_iff
+
+/-- the deviation behind D24 really occurs: when the fast path hits and another matching row name has a count-th occurrence, the code returns one row while the documented list has a second, different one -/
+theorem C08_fast_path_deviation_is_real :
+    ∀ (t : TableM.Tbl),
+      TableM.Coherent t →
+        ∀ (m : TableM.Match) (sel name : String) (c offset i : Int),
+          TableM.splitNameCountOffset t sel = Except.ok (name, some c, offset) →
+            TableM.scanLookup (TableM.Tbl.indexCol t) name c offset = some i →
+              ∀ (nn : String) (i' : Int),
+                nn ∈ TableM.Tbl.indexCol t →
+                  nn ≠ name →
+                    m nn = true →
+                      TableM.scanLookup (TableM.Tbl.indexCol t) nn c 0 = some i' →
+                        (TableM.getRegexpIndices t m sel).snd = Except.ok [i] ∧
+                          i' + offset ∈ TableM.docCount (TableM.Tbl.indexCol t) m c offset ∧
+                            i' + offset ≠ i ∧
+                              TableM.docCount (TableM.Tbl.indexCol t) m c offset ≠ [i] ∧
+                                (m name = true →
+                                  i ∈ TableM.docCount (TableM.Tbl.indexCol t) m c offset ∧
+                                    2 ≤ List.length (TableM.docCount (TableM.Tbl.indexCol t) m c offset)) :=
+  @TableM.count_selector_fast_deviates
+
+/-- the second way to deviate (found while proving the complement; now part of D24's signature): the literal name is a row name that the regexp does not match (`'a+::0'` on rows `a+`, `aa`): the code returns that row, the documented list does not contain it -/
+theorem C08_fast_path_self_nonmatch :
+    ∀ (t : TableM.Tbl),
+      TableM.Coherent t →
+        ∀ (m : TableM.Match) (sel name : String) (c offset i : Int),
+          TableM.splitNameCountOffset t sel = Except.ok (name, some c, offset) →
+            TableM.scanLookup (TableM.Tbl.indexCol t) name c offset = some i →
+              m name = false →
+                (TableM.getRegexpIndices t m sel).snd = Except.ok [i] ∧
+                  ¬i ∈ TableM.docCount (TableM.Tbl.indexCol t) m c offset ∧
+                    ((∀ (nn : String), nn ∈ TableM.Tbl.indexCol t → m nn = true → nn = name) →
+                      TableM.docCount (TableM.Tbl.indexCol t) m c offset = []) :=
+  @TableM.count_selector_self_nonmatch
+
+/-- the offset of a count selector is a plain shift of the position, not range-checked — in the fast path and in the regexp path alike (model = code, see `TableM.fastEx_out_of_range`) -/
+theorem C08_offset_is_a_plain_shift :
+    ∀ (col : List String) (n : String) (c o : Int),
+      TableM.scanLookup col n c o = Option.map (fun x => x + o) (TableM.scanLookup col n c 0) :=
+  @TableM.scanLookup_offset
 
 end wrapped
 
